@@ -21,7 +21,9 @@ Record la_rule := mkLaRule { lr_cases : list la_case; lr_default : Z }.
 Record la_tables := mkLaTables {
   lt_rule : Z -> option la_rule;     (* Tables.Lookaheads by rule index (rules numbered after the ordinary ones) *)
   lt_final : Z -> Z;                 (* Tables.FinalStates by input; the start state of an input is its index *)
-  lt_recursive : bool                (* option recursiveLookaheads *)
+  lt_recursive : bool;               (* option recursiveLookaheads *)
+  lt_depth : nat                     (* Tables.UsedLADepth: how many terminals after the next one an LALR(k) row may
+                                        inspect (0 for LALR(1) tables); only these are handed to m_act *)
 }.
 
 (* the session: shift counter, memoization cache (offset, final state) -> answer, and the tick log *)
@@ -90,7 +92,7 @@ Fixpoint look_loop (fuel : nat) (depth end_state : Z) (stack : list Z) (state : 
         let s1 := if att then tick depth s else s in
         if att && polls (ls_counter s1) && rho (ls_counter s1) then (LAbort CtxErr, s1)
         else
-          match m_act m state (t_sym nx) (map t_sym (tl input)) with
+          match m_act m state (t_sym nx) (map t_sym (firstn (lt_depth lt) (tl input))) with
           | Reduce rule =>
               let ln := Z.to_nat (m_rule_len m rule) in
               if (length stack <=? ln)%nat then (LAbort (Plain (Crash 2)), s1)
@@ -143,7 +145,7 @@ Definition lstep (lfuel : nat) (evt : ev_table) (fixws : bool) (c : lconfig) : l
       | XContinue x' => LContinue (mkLC s2 x')
       | XStop o => LStop (Plain o) s2
       end in
-    match m_act m (xc_state x) (t_sym nx) (map t_sym (tl (xc_input x))) with
+    match m_act m (xc_state x) (t_sym nx) (map t_sym (firstn (lt_depth lt) (tl (xc_input x)))) with
     | Reduce rule =>
         match lt_rule lt rule with
         | Some lr =>
